@@ -609,4 +609,284 @@ theorem taskLoop_fuel (cfg : Cfg T A P V E) (ev : Ev St P (List I) V E) :
 
 end task
 
+/-! ## Part 5: the fuel of the bounded loops is exact
+  Each bounded `while` is a recursion on a fuel instantiated with `max_tries - counter`.  Any
+  fuel at least that large gives the same result: the recursion never stops because of the fuel. -/
+section fuel
+
+theorem uniqLoop_fuel [DecidableEq P] (seen : List P) (mt : Nat) : ∀ (f1 f2 : Nat) (sol : P) (ut : Nat)
+    (ds : List P), mt - ut ≤ f1 → mt - ut ≤ f2 →
+    uniqLoop seen mt f1 sol ut ds = uniqLoop seen mt f2 sol ut ds := by
+  intro f1
+  induction f1 with
+  | zero =>
+    intro f2 sol ut ds h1 h2
+    cases f2 with
+    | zero => rfl
+    | succ f2 =>
+      have : ¬ (sol ∈ seen ∧ ut < mt) := fun h => by omega
+      simp only [uniqLoop, if_neg this]
+  | succ f1 ih =>
+    intro f2 sol ut ds h1 h2
+    cases f2 with
+    | zero =>
+      have : ¬ (sol ∈ seen ∧ ut < mt) := fun h => by omega
+      simp only [uniqLoop, if_neg this]
+    | succ f2 =>
+      simp only [uniqLoop]
+      split
+      · cases ds with
+        | nil => rfl
+        | cons d ds1 => exact ih f2 d (ut + 1) ds1 (by omega) (by omega)
+      · rfl
+
+theorem typeLoop_fuel [DecidableEq T] (failed : List T) (mt : Nat) : ∀ (f1 f2 : Nat) (tr : T) (i : Nat)
+    (ts : List T), mt + 1 - i ≤ f1 → mt + 1 - i ≤ f2 →
+    typeLoop failed mt f1 tr i ts = typeLoop failed mt f2 tr i ts := by
+  intro f1
+  induction f1 with
+  | zero =>
+    intro f2 tr i ts h1 h2
+    cases f2 with
+    | zero => rfl
+    | succ f2 =>
+      have : ¬ (tr ∈ failed ∧ i ≤ mt) := fun h => by omega
+      simp only [typeLoop, if_neg this]
+  | succ f1 ih =>
+    intro f2 tr i ts h1 h2
+    cases f2 with
+    | zero =>
+      have : ¬ (tr ∈ failed ∧ i ≤ mt) := fun h => by omega
+      simp only [typeLoop, if_neg this]
+    | succ f2 =>
+      simp only [typeLoop]
+      split
+      · cases ts with
+        | nil => rfl
+        | cons t ts1 => exact ih f2 t (i + 1) ts1 (by omega) (by omega)
+      · rfl
+
+theorem varLoop_fuel [DecidableEq P] (seen : List P) (mt nargs : Nat) (uv : P → Nat) :
+    ∀ (f1 f2 vu : Nat) (best : P) (tries ut : Nat) (ds : List P), mt - tries ≤ f1 → mt - tries ≤ f2 →
+    varLoop seen mt nargs uv f1 vu best tries ut ds = varLoop seen mt nargs uv f2 vu best tries ut ds := by
+  intro f1
+  induction f1 with
+  | zero =>
+    intro f2 vu best tries ut ds h1 h2
+    cases f2 with
+    | zero => rfl
+    | succ f2 =>
+      have : ¬ (vu < nargs ∧ tries < mt) := fun h => by omega
+      simp only [varLoop, if_neg this]
+  | succ f1 ih =>
+    intro f2 vu best tries ut ds h1 h2
+    cases f2 with
+    | zero =>
+      have : ¬ (vu < nargs ∧ tries < mt) := fun h => by omega
+      simp only [varLoop, if_neg this]
+    | succ f2 =>
+      simp only [varLoop]
+      split
+      · cases ds with
+        | nil => rfl
+        | cons d ds1 =>
+          simp only
+          cases uniqLoop seen mt (mt - ut) d ut ds1 with
+          | none => rfl
+          | some r =>
+            obtain ⟨sol, ut1, ds2⟩ := r
+            simp only
+            split
+            · exact ih f2 _ _ _ _ _ (by omega) (by omega)
+            · exact ih f2 _ _ _ _ _ (by omega) (by omega)
+      · rfl
+
+theorem exLoop_fuel [DecidableEq A] [DecidableEq V] (cfg : Cfg T A P V E) (ev : Ev St P (List I) V E)
+    (sol : P) (args : List A) (samples : Int) :
+    ∀ (f1 f2 tries : Nat) (exs : List (List I × Option V)) (ind : AList A (List I)) (es : St),
+      cfg.maxTries - tries ≤ f1 → cfg.maxTries - tries ≤ f2 →
+      exLoop cfg ev sol args samples f1 tries exs ind es = exLoop cfg ev sol args samples f2 tries exs ind es := by
+  intro f1
+  induction f1 with
+  | zero =>
+    intro f2 tries exs ind es h1 h2
+    cases f2 with
+    | zero => rfl
+    | succ f2 =>
+      have : ¬ ((exs.length : Int) < samples ∧ ((cfg.maxTries : Int) - tries) + exs.length ≥ samples
+          ∧ tries < cfg.maxTries) := fun h => by omega
+      simp only [exLoop, if_neg this]
+  | succ f1 ih =>
+    intro f2 tries exs ind es h1 h2
+    cases f2 with
+    | zero =>
+      have : ¬ ((exs.length : Int) < samples ∧ ((cfg.maxTries : Int) - tries) + exs.length ≥ samples
+          ∧ tries < cfg.maxTries) := fun h => by omega
+      simp only [exLoop, if_neg this]
+    | succ f2 =>
+      simp only [exLoop]
+      split
+      · cases sampleInput args ind with
+        | none => rfl
+        | some r =>
+          obtain ⟨inp, ind'⟩ := r
+          simp only
+          cases (evalInput cfg ev es sol inp) with
+          | mk es' o =>
+            cases o with
+            | error e => rfl
+            | ok out =>
+              simp only
+              split
+              · split
+                · rfl
+                · exact ih f2 _ _ _ _ (by omega) (by omega)
+              · exact ih f2 _ _ _ _ (by omega) (by omega)
+      · rfl
+
+end fuel
+
+/-! ## Part 6: the results do not depend on the state of a faithful evaluator
+  Forgetting the evaluator state, a run with any faithful evaluator is the run with the stateless
+  evaluator that answers the semantics. -/
+section forget
+open PS.C10 (pureEv)
+variable [DecidableEq T] [DecidableEq A] [DecidableEq P] [DecidableEq V]
+
+def ExRes.forget : ExRes I V E St A → ExRes I V E Unit A
+  | .done t e i _ => .done t e i ()
+  | .raised e i _ => .raised e i ()
+  | .stuck => .stuck
+
+def State.forget (s : State T A P I St) : State T A P I Unit :=
+  { seen := s.seen, failed := s.failed, difficulty := s.difficulty, generated := s.generated,
+    types := s.types, progs := s.progs, samples := s.samples, inputs := s.inputs, es := () }
+
+def Out.forget : Out T A P I V E St → Out T A P I V E Unit
+  | .task t s => .task t s.forget
+  | .raised e s => .raised e s.forget
+  | .stuck => .stuck
+
+def Iter.forget : Iter T A P I V E St → Iter T A P I V E Unit
+  | .out o => .out o.forget
+  | .retry s => .retry s.forget
+
+theorem exLoop_forget (cfg : Cfg T A P V E) {ev : Ev St P (List I) V E}
+    {sem : P → List I → Outcome V E} {Inv : St → Prop} (hF : Faithful ev sem Inv)
+    (sol : P) (args : List A) (samples : Int) :
+    ∀ (fuel tries : Nat) (exs : List (List I × Option V)) (ind : AList A (List I)) (es : St), Inv es →
+      (exLoop cfg ev sol args samples fuel tries exs ind es).forget =
+        exLoop cfg (pureEv sem) sol args samples fuel tries exs ind () := by
+  intro fuel
+  induction fuel with
+  | zero => intro tries exs ind es _; rfl
+  | succ fuel ih =>
+    intro tries exs ind es hI
+    simp only [exLoop]
+    split
+    · cases sampleInput args ind with
+      | none => rfl
+      | some r =>
+        obtain ⟨inp, ind'⟩ := r
+        obtain ⟨e1, e2⟩ := hF.eval_spec es sol inp hI
+        simp only [evalInput, e2, PS.C10.pureEv_eval]
+        cases outOpt cfg.skip (sem sol inp) with
+        | error e => rfl
+        | ok out =>
+          simp only
+          split
+          · split
+            · rfl
+            · exact ih _ _ _ _ e1
+          · exact ih _ _ _ _ e1
+    · rfl
+
+theorem iteration_forget (cfg : Cfg T A P V E) {ev : Ev St P (List I) V E}
+    {sem : P → List I → Outcome V E} {Inv : St → Prop} (hF : Faithful ev sem Inv)
+    (s : State T A P I St) (hI : Inv s.es) :
+    (iteration cfg ev s).forget = iteration cfg (pureEv sem) s.forget := by
+  unfold iteration
+  simp only [State.forget]
+  cases generateTypeRequest s.failed cfg.maxTries s.types with
+  | none => rfl
+  | some r =>
+    obtain ⟨tr, ts⟩ := r
+    simp only
+    cases AList.lookup tr s.progs with
+    | none => rfl
+    | some ds =>
+      simp only
+      cases generateProgram s.seen cfg.maxTries (cfg.args tr).length cfg.usedVars ds with
+      | none => rfl
+      | some r2 =>
+        obtain ⟨⟨sol, isU⟩, ds'⟩ := r2
+        simp only
+        cases pop tr s.samples with
+        | none => rfl
+        | some r3 =>
+          obtain ⟨samples, smp'⟩ := r3
+          simp only
+          rw [← exLoop_forget cfg hF sol (cfg.args tr) samples cfg.maxTries 0 [] s.inputs s.es hI]
+          cases exLoop cfg ev sol (cfg.args tr) samples cfg.maxTries 0 [] s.inputs s.es with
+          | stuck => rfl
+          | raised e ind es => rfl
+          | done tries exs ind es =>
+            simp only [ExRes.forget]
+            split <;> rfl
+
+theorem taskLoop_forget (cfg : Cfg T A P V E) {ev : Ev St P (List I) V E}
+    {sem : P → List I → Outcome V E} {Inv : St → Prop} (hF : Faithful ev sem Inv) :
+    ∀ (fuel : Nat) (s : State T A P I St), Inv s.es →
+      (taskLoop cfg ev fuel s).forget = taskLoop cfg (pureEv sem) fuel s.forget := by
+  intro fuel
+  induction fuel with
+  | zero => intro s _; rfl
+  | succ fuel ih =>
+    intro s hI
+    have hit := iteration_spec cfg hF s hI
+    have hf := iteration_forget cfg hF s hI
+    simp only [taskLoop]
+    cases hi : iteration cfg ev s with
+    | out o => rw [hi] at hf; rw [← hf]; rfl
+    | retry s' =>
+      rw [hi] at hf hit
+      rw [← hf]
+      exact ih s' hit.1
+
+theorem generateTask_forget (cfg : Cfg T A P V E) {ev : Ev St P (List I) V E}
+    {sem : P → List I → Outcome V E} {Inv : St → Prop} (hF : Faithful ev sem Inv)
+    (s : State T A P I St) (hI : Inv s.es) :
+    (generateTask cfg ev s).forget = generateTask cfg (pureEv sem) s.forget :=
+  taskLoop_forget cfg hF (s.types.length + 1) { s with failed := [] } hI
+
+theorem run_forget (cfg : Cfg T A P V E) {ev : Ev St P (List I) V E}
+    {sem : P → List I → Outcome V E} {Inv : St → Prop} (hF : Faithful ev sem Inv) :
+    ∀ (n : Nat) (s : State T A P I St), Inv s.es →
+      (run cfg ev n s).map Out.forget = run cfg (pureEv sem) n s.forget := by
+  intro n
+  induction n with
+  | zero => intro s _; rfl
+  | succ n ih =>
+    intro s hI
+    have hg := generateTask_spec cfg hF s hI
+    have hf := generateTask_forget cfg hF s hI
+    simp only [run]
+    cases ho : generateTask cfg ev s with
+    | stuck => rw [ho] at hf; rw [← hf]; rfl
+    | raised e s' =>
+      rw [ho] at hf hg
+      rw [← hf]
+      simp only [Out.forget, List.map_cons, ih s' hg.1]
+    | task t s' =>
+      rw [ho] at hf hg
+      rw [← hf]
+      simp only [Out.forget, List.map_cons, ih s' hg.2.1]
+
+theorem tasksOf_forget (l : List (Out T A P I V E St)) : tasksOf (l.map Out.forget) = tasksOf l := by
+  induction l with
+  | nil => rfl
+  | cons o r ih => cases o <;> simp [tasksOf, Out.forget, ih]
+
+end forget
+
 end PS.C18
